@@ -96,7 +96,7 @@ impl Val {
     pub fn short(&self) -> String {
         match self {
             Val::Long { tag, len, blob } => format!("<{}{}:{}>", if *blob { "blob" } else { "text" }, tag, len),
-            Val::Text(s) if s.len() > 24 => format!("'{}..'[{}]", &s[..16], s.len()),
+            Val::Text(s) if s.len() > 24 => format!("'{}..'[{}]", trunc(s, 16), s.len()),
             Val::Blob(b) if b.len() > 12 => format!("x[{}]", b.len()),
             v => v.sql(),
         }
@@ -137,6 +137,18 @@ impl Val {
             Val::Long { .. } => unreachable!(),
         }
     }
+}
+
+/// Truncate at a char boundary.
+pub fn trunc(s: &str, n: usize) -> &str {
+    if s.len() <= n {
+        return s;
+    }
+    let mut k = n;
+    while k > 0 && !s.is_char_boundary(k) {
+        k -= 1;
+    }
+    &s[..k]
 }
 
 pub type Row = Vec<Val>;
@@ -587,7 +599,7 @@ impl Op {
             other => {
                 let s = other.sql();
                 if s.len() > 300 {
-                    format!("{}…[{}]", &s[..300], s.len())
+                    format!("{}…[{}]", trunc(&s, 300), s.len())
                 } else {
                     s
                 }
